@@ -43,3 +43,4 @@ CFG['level_text'] += ' Two cases have a root go.mod whose real content is MaxGoM
 CFG['level_text'] += ' One real tree holds a sparse file of MaxZipFile+1 bytes: directory check and list check must both report the size error and both ways of creating must fail.'
 CFG['level_text'] += ' The size-limit scenario includes a go.mod one byte over the limit that declares go 1.24: the file is invalid, the other files are still judged by the 1.24 vendoring rules.'
 CFG['level_text'] += ' List mutations include a reserved file name next to a sibling directory whose name is a prefix of its stem (co/ and con.go), names in which a reserved stem first occurs inside a longer word, and go lines written with a tab, an indent, CRLF or a comment.'
+CFG['level_text'] += ' go.mod texts include a no-break space, an ideographic space, a byte order mark, an undecodable byte inside a skipped line and Latin-1 letters in a requirement version; directory names include letters whose case-folded form is shorter in UTF-8.'
